@@ -5,6 +5,7 @@ import (
 	"encoding/json"
 	"fmt"
 	"os"
+	"path/filepath"
 	"sort"
 	"strings"
 	"testing"
@@ -397,6 +398,15 @@ func runHostile(t *testing.T, sc *Scenario, res *Result, afterBoot func(w *World
 					_ = c
 				}
 			}()
+		}
+		// ftp: the names the hostile dialogues use exist (a file f, a directory d1 with a file in it), so that RETR,
+		// SIZE, LIST ... get as far as opening them
+		if roots, _ := filepath.Glob(filepath.Join(w.TmpDir, "ftp", "*")); len(roots) > 0 {
+			for _, root := range roots {
+				os.WriteFile(filepath.Join(root, "f"), []byte("file f of the ftp root\n"), 0644)
+				os.MkdirAll(filepath.Join(root, "d1"), 0755)
+				os.WriteFile(filepath.Join(root, "d1", "g"), []byte("g\n"), 0644)
+			}
 		}
 		if afterBoot != nil {
 			afterBoot(w)
